@@ -85,6 +85,8 @@ pub struct SchedWriter {
     chunk: Option<usize>,
     fail_at_call: Option<usize>,
     fail_after_bytes: Option<usize>,
+    /// when the byte limit is reached: report Ok(0) instead of an error
+    full_sink: bool,
 }
 
 impl SchedWriter {
@@ -92,9 +94,11 @@ impl SchedWriter {
         let (fail_at_call, fail_after_bytes) = match fault {
             Some(Fault::Write { k }) => (Some(*k), None),
             Some(Fault::WriteAfterBytes { n }) => (None, Some(*n)),
+            Some(Fault::WriteFullAfterBytes { n }) => (None, Some(*n)),
             _ => (None, None),
         };
-        SchedWriter { out: Vec::new(), calls: 0, chunk, fail_at_call, fail_after_bytes }
+        let full_sink = matches!(fault, Some(Fault::WriteFullAfterBytes { .. }));
+        SchedWriter { out: Vec::new(), calls: 0, chunk, fail_at_call, fail_after_bytes, full_sink }
     }
 }
 
@@ -111,6 +115,9 @@ impl Write for SchedWriter {
         if let Some(limit) = self.fail_after_bytes {
             let room = limit.saturating_sub(self.out.len());
             if room == 0 && !buf.is_empty() {
+                if self.full_sink {
+                    return Ok(0);
+                }
                 return Err(io::Error::new(WRITE_FAULT, "injected write fault"));
             }
             n = n.min(room);
@@ -927,7 +934,7 @@ fn c18_check(case: &Case, ctx: &mut Ctx) -> Result<(), String> {
     }
     // ---- writer accepts exactly n bytes, then fails
     let byte_ns: Vec<usize> = match &explicit {
-        Some(Fault::WriteAfterBytes { n }) => vec![*n],
+        Some(Fault::WriteAfterBytes { n }) | Some(Fault::WriteFullAfterBytes { n }) => vec![*n],
         Some(_) => vec![],
         None => {
             let total = free_out.len();
@@ -954,6 +961,22 @@ fn c18_check(case: &Case, ctx: &mut Ctx) -> Result<(), String> {
                 }
                 if run.out[..] != free_out[..n] {
                     return Err(format!("writer failing after {} bytes: accepted bytes are not the first {} bytes of the fault-free output", n, n));
+                }
+            }
+            // the same limit on a sink that is simply full: it reports Ok(0),
+            // which must surface as an error (WriteZero), never as success
+            let full_explicit = matches!(explicit, Some(Fault::WriteFullAfterBytes { .. }));
+            if (n % 3 == 0 && explicit.is_none()) || full_explicit {
+                let run = run_replace(&s, case, with_closure, &Some(Fault::WriteFullAfterBytes { n }), None)?;
+                faults += 1;
+                if n < free_out.len() {
+                    match run.result {
+                        Err(io::ErrorKind::WriteZero) => {}
+                        other => return Err(format!("full sink after {} bytes (write returns Ok(0)): expected Err(WriteZero), got {:?} with {} of {} output bytes", n, other, run.out.len(), free_out.len())),
+                    }
+                    if run.out[..] != free_out[..n] {
+                        return Err(format!("full sink after {} bytes: accepted bytes are not the first {} bytes of the fault-free output", n, n));
+                    }
                 }
             }
         }
@@ -1022,7 +1045,7 @@ fn c18_strategy(_tier: Tier) -> BoxedStrategy<Case> {
 pub const C18: PropDef = PropDef {
     id: "C18",
     rule: "C07/C08 generators with shorter streams; for each generated (stream, read schedule, buffer spare, replacement table, writer chunking) the fault-free run is executed first to learn the number of read calls R and write calls W and the output length, \
-then EVERY fault position is injected (all of them when a run makes at most 400 calls, which is every case except the rare > 64 KiB stream class read in tiny pieces; there the first 10, the last 10 and about 10 evenly spaced calls): read failure at call k for k in 1..=R (match iterator, table replacement, closure replacement; the error kind cycles through ConnectionReset / Interrupted / UnexpectedEof / WouldBlock / Other with k; for Interrupted either reporting it or retrying with the complete fault-free result is accepted), write failure at call k in 1..=W, a writer that accepts exactly n bytes then fails for every n (all n if output <= 96 bytes, else first/last 32 and every 7th, at most ~40 in between; first/last 10 and ~10 in between above 20 000 bytes), and the closure failing at match j. \
+then EVERY fault position is injected (all of them when a run makes at most 400 calls, which is every case except the rare > 64 KiB stream class read in tiny pieces; there the first 10, the last 10 and about 10 evenly spaced calls): read failure at call k for k in 1..=R (match iterator, table replacement, closure replacement; the error kind cycles through ConnectionReset / Interrupted / UnexpectedEof / WouldBlock / Other with k; for Interrupted either reporting it or retrying with the complete fault-free result is accepted), write failure at call k in 1..=W, a writer that accepts exactly n bytes then fails for every n - with an error, and for every third n as a full sink that answers Ok(0), which must surface as WriteZero - (all n if output <= 96 bytes, else first/last 32 and every 7th, at most ~40 in between; first/last 10 and ~10 in between above 20 000 bytes), and the closure failing at match j. \
 Oracle: nothing panics; the injected error kind surfaces (one trailing Some(Err) item, resp. the returned Err); matches before it are a prefix of the fault-free sequence; bytes written are a prefix of the fault-free output (exactly the first n for the byte-limited writer); the iterator never ends before the reader returned Ok(0). \
 The long-pattern scenarios of C07 (L up to 1 MiB + 4097 at the default capacity) are re-run with a read failure at the last, second-to-last and middle read call. evaluations counts generated cases; the counter faults_injected counts fault runs. \
 Non-trivial = at least one fault was injected after a buffer roll, or between the two reads that a match spans. Distinct = distinct case fingerprint.",
